@@ -13,6 +13,7 @@ use vstd::prelude::*;
 use vstd::std_specs::cmp::{PartialEqSpec, PartialOrdSpec, OrdSpec};
 use core::cmp::Ordering;
 use std::cmp::Ordering::*;
+use std::cmp::Reverse;
 
 verus! {
 
@@ -314,6 +315,43 @@ impl<T: Ord> vstd::std_specs::cmp::OrdSpecImpl for Dual<T> {
 //@end
 '''
 
+REVERSE = r'''
+// core::cmp::Reverse<T> (a transparent std type).  ASSUMED (trusted, one line of std): its PartialOrd compares the
+// wrapped values with the arguments swapped.
+#[verifier::external_type_specification]
+pub struct ExReverse<T>(core::cmp::Reverse<T>);
+pub mod trusted_reverse {
+    use super::*;
+    pub broadcast proof fn axiom_reverse_partial_cmp<T: PartialOrd>(a: core::cmp::Reverse<T>, b: core::cmp::Reverse<T>)
+        ensures #[trigger] a.partial_cmp_spec(&b) == b.0.partial_cmp_spec(&a.0)
+    { admit(); }
+    pub broadcast proof fn axiom_reverse_obeys<T: PartialOrd>()
+        requires T::obeys_partial_cmp_spec(),
+        ensures #[trigger] <core::cmp::Reverse<T> as PartialOrdSpec>::obeys_partial_cmp_spec()
+    { admit(); }
+}
+broadcast use {trusted_reverse::axiom_reverse_partial_cmp, trusted_reverse::axiom_reverse_obeys};
+
+//@impl ascent_base lattice | impl<T: Lattice> Lattice for Reverse<T>
+    open spec fn lat_wf() -> bool { T::lat_wf() }
+    // the property: "Dual and Reverse swap the two operations"
+    open spec fn lat_le(&self, other: &Self) -> bool { other.0.lat_le(&self.0) }
+    open spec fn lat_join(self, other: Self) -> Self { core::cmp::Reverse(self.0.lat_meet(other.0)) }
+    open spec fn lat_meet(self, other: Self) -> Self { core::cmp::Reverse(self.0.lat_join(other.0)) }
+    proof fn law_order(a: Self, b: Self, c: Self) {
+        T::law_order(a.0, a.0, a.0);
+        T::law_order(b.0, a.0, b.0);
+        T::law_order(c.0, b.0, a.0);
+    }
+    proof fn law_join_lub(a: Self, b: Self, c: Self) { T::law_meet_glb(a.0, b.0, c.0); }
+    proof fn law_meet_glb(a: Self, b: Self, c: Self) { T::law_join_lub(a.0, b.0, c.0); }
+    proof fn law_ord_agrees(a: Self, b: Self) { T::law_ord_agrees(b.0, a.0); T::law_ord_agrees(a.0, b.0); }
+    proof fn law_obeys() { T::law_obeys(); }
+//@end
+//@impl ascent_base lattice | impl<T: BoundedLattice> BoundedLattice for Reverse<T>
+//@end
+'''
+
 ORD_LATTICE = r'''
 //@type ascent_base lattice::ord_lattice | OrdLattice
 impl<T: PartialOrd> vstd::std_specs::cmp::PartialOrdSpecImpl for OrdLattice<T> {
@@ -488,6 +526,7 @@ pub proof fn wf_witnesses()
         <Dual<Option<Product<(u8, i16)>>> as Lattice>::lat_wf(),
         <Product<(Dual<u8>, Option<u8>)> as Lattice>::lat_wf(),
         <Option<Dual<Product<(u8, u8, Option<i32>)>>> as Lattice>::lat_wf(),
+        <Reverse<Option<u8>> as Lattice>::lat_wf(),
 {
 }
 
@@ -509,7 +548,7 @@ fn main() {}
 
 
 def template(max_arity=MAX_ARITY):
-    parts = [PRELUDE, ints(), OPTION, DUAL, ORD_LATTICE, PRODUCT_HEAD]
+    parts = [PRELUDE, ints(), OPTION, DUAL, REVERSE, ORD_LATTICE, PRODUCT_HEAD]
     for n in range(1, max_arity + 1):
         parts.append(product(n))
     for n in range(1, max_arity + 1):
